@@ -108,6 +108,9 @@ class A(Adapter):
                        # the float32 distance between two points of the map (float32(map_max * sqrt 2))
                        "coef_early_max": rat(float(np.float32(g._early_coef_rand[1]))),
                        "coef_late_max": rat(float(np.float32(g._late_coef_rand[1]))),
+                       # read by multi_cvrp.instance when it replays the generator from the raw draw (C10): lower ends
+                       "coef_early_min": rat(float(np.float32(g._early_coef_rand[0]))),
+                       "coef_late_min": rat(float(np.float32(g._late_coef_rand[0]))),
                        "dist_max": rat(float(np.float32(float(g._map_max) * np.sqrt(2.0))))}
                 out.append(Config(f"multi_cvrp-{tag}-n{n}-v{v}-c{cfg['max_capacity']}-{'dense' if dense else 'sparse'}",
                                   build, cfg, dense=dense, n=n, v=v, partner=partner,
@@ -151,6 +154,52 @@ class A(Adapter):
 
     def ser_action(self, env, a):
         return [int(x) for x in np.asarray(a).reshape(-1)]
+
+    # ---- C10: replay of the generator from the raw random numbers
+    @staticmethod
+    def _raw_draw(env, sd):
+        """the numbers `UniformRandomGenerator.__call__(PRNGKey(sd))` gets from the PRNG, with the generator's own key
+        plumbing: `problem_key, _ = split(key)`, `coord, demand, window, early, late = split(problem_key, 5)`; the unit
+        uniforms `jax.random.uniform(k, shape)` are the `u` of `uniform(k, shape, minval, maxval) = max(minval,
+        u * (maxval - minval) + minval)` (same key, same shape => same bits)."""
+        import jax
+
+        g = env._generator
+        n = g._num_customers
+        problem_key, _ = jax.random.split(jax.random.PRNGKey(sd))
+        ck, dk, wk, ek, lk = jax.random.split(problem_key, 5)
+        return {"u_coords": ser(jax.random.uniform(ck, (n + 1, 2))),
+                "raw_demands": ser(jax.random.randint(dk, (n + 1,), minval=0, maxval=g._customer_demand_max)),
+                "u_win": ser(jax.random.uniform(wk, (n + 1,))), "u_early": ser(jax.random.uniform(ek, (n + 1,))),
+                "u_late": ser(jax.random.uniform(lk, (n + 1,)))}
+
+    def instance_extra(self, ctx, cfg, env, runner, rng, drv, seeds):
+        """`multi_cvrp.instance` with the raw draw: the implementation's reset state must equal the Lean transliteration
+        `generateRaw roundF32 cfg raw` field by field (float32 values exactly), and the raw draw must satisfy `validRaw`
+        (the hypothesis of the generator theorems).  Not for the adapter's own "full load" test generator."""
+        import jax
+        from common import DriverError
+
+        if cfg.cfg.get("full_load"):
+            return
+        sds = seeds[: (12 if ctx.quick else 80)]
+        reqs = []
+        for sd in sds:
+            s = runner.reset(jax.random.PRNGKey(sd))[0]
+            reqs.append(dict(op="multi_cvrp.instance", cfg=cfg.cfg, state=self.ser_state(env, s), raw=self._raw_draw(env, sd)))
+        for sd, rq, v in zip(sds, reqs, drv.batch(reqs)):
+            ctx.evaluations += 1
+            info = {"env": self.name, "config": cfg.cid, "reset_seed": sd, "state": rq["state"], "raw": rq["raw"]}
+            if isinstance(v, DriverError) or "generator_replay" not in v or "raw_valid" not in v:
+                ctx.disagree(self.name, f"multi_cvrp.instance gives no verdict on the generator replay: {v}",
+                             {"config": cfg.cid, "seed": sd})
+                continue
+            for name in ("raw_valid", "generator_replay"):
+                if v[name] is not True:
+                    ctx.fail(self.name, f"instance:{name}",
+                             f"reset state is not the Lean generator applied to its raw draw ({name}; differs in "
+                             f"{v.get('generator_replay_diff')})", info, {"certificate": name})
+                ctx.count(f"{self.name}.{name}")
 
     # ---- joint actions (one node index per vehicle)
     def _num_values(self, env):
